@@ -42,6 +42,7 @@ func ZZ_C16_sequential() {
 	e := zzChanEnv(a, b, c)
 	elem := []string{"int64", "interface"}[zz.Choose(2)]
 	mk := "ch = make(chan " + elem + ", 3)\n"
+	zz.DeadlockIsViolation("terminates.C16.sequential")
 	switch zz.Choose(11) {
 	case 9:
 		// leaving a for-in over a channel early consumes exactly what it received
@@ -193,5 +194,5 @@ func ZZ_C16_pipeline_quick() {
 }
 
 func ZZ_C16_pipeline() {
-	zzPipeline(zz.Choose(4), zz.Choose(3), zz.Choose(2), 8)
+	zzPipeline(zz.Choose(4), zz.Choose(3), zz.Choose(2), 5)
 }
